@@ -173,6 +173,21 @@ def argsHandler : Handler := fun payload impl =>
     | _, _, _ => ("BAD-CASE", "FAIL unparsable case")
   | _ => ("BAD-CASE", "FAIL unparsable case")
 
+/-! ### c15.ops: templates with operators — no reader model (empty operator table); the oracle is the real
+    code's own reading of the literal text, compared with ==/2 -/
+
+def opsHandler : Handler := fun _payload impl =>
+  let verdict :=
+    if impl.startsWith "err convert" then "ok"
+    else if impl.startsWith "err" then "FAIL the query with placeholders was rejected: " ++ impl
+    else match impl.splitOn " lit=" with
+      | [_, lit] =>
+        if lit.startsWith "same" then "ok"
+        else if lit.startsWith "differ" then "FAIL placeholder and literal give different terms (==/2 fails on the real code): " ++ lit
+        else "-"
+      | _ => "FAIL unparsable output"
+  (impl, verdict)
+
 /-! ### c15.scan -/
 
 def baseDest : String → Option Dest
